@@ -20,7 +20,8 @@ RULE = ("job = seed (+ optional forced (suite, version, EtM) grid cell) -> "
         " script, effective choices); non-trivial = handshake completed and "
         ">= 1 byte of application data was delivered in some direction"
         ' Op alphabet also has zero-length reads (the documented poll idiom) and re-sending the SAME caller-owned bytearray object; the data phase may run on a resumed connection.'
-        ' TLS 1.3 scripts also issue KeyUpdates; a last chunk may be written right before close while the peer asks for more.')
+        ' TLS 1.3 scripts also issue KeyUpdates; a last chunk may be written right before close while the peer asks for more.'
+        " Full-duplex mode: each endpoint's writes run in a second lane of the same connection, interleaved by the scheduler with its parked reads (reader and writer task / thread on one connection).")
 LEVEL_TEXT = ("Seeded exploration: every negotiable (suite, version) cell "
               "and EtM on/off is visited in the quick tier, then random "
               "configurations and write/read histories under benign schedule "
@@ -37,7 +38,7 @@ PROBES = ["split_1n1", "empty_write", "multi_record_write", "limit_hit",
           "padding_seen", "read_max_lt_buffered", "rsl_negotiated",
           "user_recordsize", "etm", "tls13", "sslv3", "null_cipher",
           "resumed", "zero_length_read", "buffer_reused", "key_update",
-          "close_with_data_in_flight"]
+          "close_with_data_in_flight", "full_duplex"]
 COMPONENTS_REAL = ["tlslite record layer, TLSRecordLayer read/write paths, "
                    "handshake, all pure-Python ciphers/MACs"]
 COMPONENTS_STUB = ["socket (FakeSocket/Pipe)", "os.urandom (per-node PRNG)",
@@ -341,6 +342,17 @@ def run(job, streams=None):
                 return setrs
             raise ValueError(op)
 
+        if ch.draw(3, "cfg.duplex") == 1:
+            # full duplex: each endpoint's writes run in a lane of their own,
+            # interleaved by the scheduler with its (parked) reads.  Reads
+            # that make the connection write (KeyUpdate replies) would race
+            # with the writer for the transport - an application error, not
+            # exercised here.
+            from sim.loop import Lane
+            eps["cw"], eps["sw"] = Lane(pair.c), Lane(pair.s)
+            script = [[o[0] + "w"] + o[1:] if o[1] in ("write", "recordsize")
+                      else o for o in script if o[1] != "ku"]
+            probes["full_duplex"] = 1
         st = sim_script.run_script(sim, eps, script, op_gen)
         # drain: each side reads whatever is still owed to it
         def collect():
@@ -385,6 +397,13 @@ def run(job, streams=None):
                   (st, [(w, eps[w].cur.desc) for w in "cs"
                         if eps[w].cur is not None]))
         # ---- FIFO oracle
+        for wl in ("cw", "sw"):
+            for o in (eps[wl].history if wl in eps else []):
+                if o.kind == "exc":
+                    v("exception", "%s|%s" % (o.desc[0],
+                                              type(o.exc).__name__),
+                      "%s (writer lane) %r raised %r" % (wl[0], o.desc,
+                                                         o.exc))
         for w in "cs":
             peer = "s" if w == "c" else "c"
             want_all = stream[peer]
